@@ -198,8 +198,13 @@ def extract_tables(repo):
         "makefn_svops": r"v\[idx \+ 3\] = scalar \$op v1\[idx \+ 3\];",
     }
     for name, rx in shape.items():
-        if name not in vm or not re.search(rx, vm[name][1]):
-            raise ValueError("kernel macro %s no longer has the modelled body" % name)
+        if name not in vm:
+            raise ValueError("kernel macro %s disappeared from vops.rs" % name)
+        if not re.search(rx, vm[name][1]):
+            # a textual convenience check only (the 8-way body may legitimately be spelled as a lane loop): the kernel's behaviour,
+            # operand order included, is tied bit for bit on every length by the correspondence run -> note, not an alarm
+            _DRIFT.append("kernel macro %s no longer contains the literal unrolled line the translator looks for "
+                          "(operand order of that family is then tied by the correspondence run only)" % name)
     kern_names = {k[0] for k in kerns}
 
     def op_rows(text, want_self):
@@ -352,8 +357,16 @@ def lean_wiring(t):
     return s
 
 
+_DRIFT = []
+
+
 def EXTRACT(repo):
-    return {"Compute/Generated/C04Wiring.lean": lean_wiring(extract_tables(repo))}
+    del _DRIFT[:]
+    files = {"Compute/Generated/C04Wiring.lean": lean_wiring(extract_tables(repo))}
+    if _DRIFT:
+        from .common import SourceDrift
+        raise SourceDrift(" || ".join(_DRIFT), files)
+    return files
 
 
 # ============================================================================ generator
